@@ -106,7 +106,7 @@ def build(nodes):
 
 
 class Gen:
-    def __init__(self, rng, int_mode=False, p_named=0.4, abstract=False):
+    def __init__(self, rng, int_mode=False, p_named=0.4, abstract=False, numeric=False):
         self.rng = rng
         self.nodes = []
         self.objs = []
@@ -114,6 +114,7 @@ class Gen:
         self.p_named = p_named
         self.int_mode = int_mode
         self.abstract = abstract
+        self.numeric = numeric      # parameter-free leaves: numbers only (templates without any parameter)
         self.counter = 0
         self.flags = set()
 
@@ -140,6 +141,8 @@ class Gen:
         r = self.rng
         if need and r.random() < 0.7:
             return r.choice(['%s' % need, '%s*v' % need, '%s+a' % need, '%s/2' % need])
+        if self.numeric:
+            return r.choice([0, 1, -1, 0.5, 2.25, 3])
         if t_ok and r.random() < 0.3:
             return r.choice(['t*a', 'sin(t)', 't/4 + v'])
         return r.choice(VALS)
@@ -147,12 +150,19 @@ class Gen:
     def extras(self, dur, meas=True, cons=True):
         r = self.rng
         out = {}
+        if self.numeric:
+            if meas and r.random() < 0.6:
+                out['measurements'] = r.choice([[['m', 0, 1]], [['k', 1, 1]], [['m', 0, 1], ['k', 2, 1]]])
+            return out
         if meas and r.random() < 0.3:
             out['measurements'] = r.choice([[['m', 0, dur]], [['k', MID[dur], 1]], [['m', 0, 1], ['k', 'v', 'x']],
                                             [['m', 0.5, 'd/4']]])
         if cons and r.random() < 0.25:
             out['parameter_constraints'] = r.sample(CONSTRAINTS, r.choice([1, 1, 2]))
         return out
+
+    def dur(self):
+        return self.rng.choice([4, 8]) if self.numeric else self.rng.choice(DURS)
 
     def pooled(self, chans, atomic=None, dur=None):
         cands = [i for i, (c, a, d) in enumerate(self.meta)
@@ -285,7 +295,7 @@ class Gen:
                     pm.append([p, r.choice(['a', 'a+b', 'v*2', 0.5, p + '_ext', 'w', 3])])
             node['pmap'] = pm
         mnames = sorted(obj.measurement_names)
-        if mnames and r.random() < 0.5:
+        if mnames and r.random() < (0.9 if self.numeric else 0.5):
             node['mmap'] = [[mnames[0], r.choice(['q', 'm', 'k2'])]]
         if r.random() < 0.15:
             node['parameter_constraints'] = [r.choice(CONSTRAINTS)]
@@ -305,7 +315,7 @@ class Gen:
                 self.flags.add('shared')
                 return p
         if depth <= 0:
-            return self.atomic(chans, r.choice(DURS), 0, force_id=force_id)
+            return self.atomic(chans, self.dur(), 0, force_id=force_id)
         kinds = ['atomic', 'atomic', 'Sequence', 'Sequence', 'Repetition', 'ForLoop', 'Mapping', 'Parallel',
                  'Arithmetic', 'TimeReversal']
         if self.abstract:
@@ -313,7 +323,7 @@ class Gen:
         k = r.choice(kinds)
         ident = self.maybe_id(force_id)
         if k == 'atomic':
-            return self.atomic(chans, r.choice(DURS), depth, force_id=force_id)
+            return self.atomic(chans, self.dur(), depth, force_id=force_id)
         if k == 'Sequence':
             subs = [self.tree(chans, depth - 1) for _ in range(r.choice([1, 2, 2, 3]))]
             return self.add(dict(k='Sequence', id=ident, subs=subs, **self.extras('d')), chans, False, None)
@@ -322,7 +332,7 @@ class Gen:
             return self.add(dict(k='Repetition', id=ident, body=body, count=r.choice(COUNTS), **self.extras('d')),
                             chans, False, None)
         if k == 'ForLoop':
-            body = self.atomic(chans, r.choice(DURS), depth - 1, need='i')
+            body = self.atomic(chans, self.dur(), depth - 1, need='i')
             if r.random() < 0.4:
                 other = self.tree(chans, depth - 1)
                 body = self.add(dict(k='Sequence', id=self.maybe_id(), subs=[body, other]), chans, False, None)
@@ -362,7 +372,10 @@ class Gen:
 def gen_store_case(rng, idx, tier):
     int_mode = rng.random() < 0.14
     abstract = rng.random() < 0.08
-    g = Gen(rng, int_mode=int_mode, p_named=rng.choice([0.15, 0.4, 0.4, 0.7]), abstract=abstract)
+    numeric = rng.random() < 0.12
+    g = Gen(rng, int_mode=int_mode, p_named=rng.choice([0.15, 0.4, 0.4, 0.7]), abstract=abstract, numeric=numeric)
+    if numeric:
+        g.flags.add('numeric')
     if int_mode:
         pool = rng.choice([[0, 1], [0, 'A'], [1], [2, 0, 1]])
         g.flags.add('int_key')
